@@ -289,13 +289,20 @@ def make_externals():
                     st.pc.append(r != 0)     # a valid hid_t is > 0, failure < 0
             snap = []
             for a in args:
-                if isinstance(a, (Ptr, SStr)):
-                    try:
-                        snap.append(str_of(interp, st, a))
-                        continue
-                    except Undecided:
-                        pass
-                    # pointer to data: snapshot the pointed value (for attribute/fill payloads)
+                if isinstance(a, SStr):
+                    snap.append(a)
+                    continue
+                if isinstance(a, Ptr):
+                    if a.obj is not None:
+                        cur0 = st.mem.get(a.obj)
+                        try:
+                            cur0 = interp.read_path(cur0, a.path) if a.path else cur0
+                        except Undecided:
+                            cur0 = None
+                        if isinstance(cur0, SStr) and is_conc(a.idx) and a.idx == 0:
+                            snap.append(cur0)
+                            continue
+                    # pointer to data: snapshot the pointed value (for attribute/fill/hyperslab payloads)
                     if isinstance(a, Ptr) and a.obj is not None:
                         cur = st.mem.get(a.obj)
                         try:
